@@ -30,9 +30,15 @@
    operands are simple (winding number 0 or 1 off the boundary: simple01, proved for rectangles),
    general position, and four tolerance / exact-join conditions, each DECIDABLE per instance
    (sound_hyps_b).  What remains of C01_partial: operands with holes / several components in
-   this branch, and simple01 for arbitrary simple polygons (the Jordan curve theorem). *)
+   this branch, and simple01 for arbitrary simple polygons (the Jordan curve theorem).
+   (6) C01_convex_simple / C01_*_sound_convex: simple01 is PROVED for every strictly convex
+   counter-clockwise polygon (decidable predicate convex_ccw_b = every ordered vertex triple is a
+   counter-clockwise triangle, equivalent to the edge-wise "every other vertex strictly left of
+   every edge"; Lemmas/Convex.v: ear induction, the barycentric identity, local constancy of the
+   winding number across the diagonal) -- so for convex operands (triangles included) EVERY
+   hypothesis of the one-step soundness theorems of |, & and - is a boolean the check evaluates. *)
 From Coq Require Import List Bool.
-From SV Require Import Spec.Spec Lemmas.Logic Lemmas.Fuel Lemmas.Construct Lemmas.Measure Lemmas.Cells Lemmas.CellsAll Lemmas.RaySum Lemmas.UnionSound Lemmas.DiffSound.
+From SV Require Import Spec.Spec Lemmas.Logic Lemmas.Fuel Lemmas.Construct Lemmas.Measure Lemmas.Cells Lemmas.CellsAll Lemmas.Winding Lemmas.RaySum Lemmas.UnionSound Lemmas.DiffSound Lemmas.Convex.
 Import ListNotations.
 Open Scope Q_scope.
 
@@ -172,3 +178,48 @@ Example C01_union_nonvacuous :
   exists a' b' s, op_or exA exB = Ok (a', b', s) /\
     region s p_A = RIn /\ region s p_AB = RIn /\ region s p_B = RIn /\ region s p_out = ROut.
 Proof. exact ex_op_or_region. Qed.
+
+(* ---- convex operands: no undecidable hypothesis left ---- *)
+Theorem C01_convex_simple : forall vs, convex_ccw_b vs = true -> simple01 (poly_of vs).
+Proof. exact convex_simple01. Qed.
+Print Assumptions C01_convex_simple.
+(* the predicate is the textbook one, and poly_of is the library's from_vertices *)
+Theorem C01_convex_predicate : forall vs, convex_edges_b vs = true <-> convex_ccw_b vs = true.
+Proof. exact convex_edges_iff. Qed.
+Theorem C01_convex_polygon_is_from_vertices : forall vs, vs <> [] -> from_vertices vs = Ok (poly_of vs).
+Proof. exact poly_of_from_vertices. Qed.
+Theorem C01_triangle_simple : forall a b c, 0 < orient a b c -> simple01 (triangle a b c).
+Proof. exact triangle_simple01. Qed.
+
+Theorem C01_union_sound_convex : forall va vb a' b' new p,
+  convex_ccw_b va = true -> convex_ccw_b vb = true ->
+  sound_hyps_b (poly_of va) (poly_of vb) true false p = true ->
+  recombine (SC (CS (poly_of va))) (SC (CS (poly_of vb))) true false = Ok (a', b', new) ->
+  Zsum (map (fun j => wn_lines j p) new)
+  = (if (wn_lines (poly_of va) p =? 0)%Z && (wn_lines (poly_of vb) p =? 0)%Z then 0 else 1)%Z.
+Proof. exact convex_union_checked. Qed.
+Theorem C01_intersection_sound_convex : forall va vb a' b' new p,
+  convex_ccw_b va = true -> convex_ccw_b vb = true ->
+  sound_hyps_b (poly_of va) (poly_of vb) false true p = true ->
+  recombine (SC (CS (poly_of va))) (SC (CS (poly_of vb))) false true = Ok (a', b', new) ->
+  Zsum (map (fun j => wn_lines j p) new)
+  = (if (wn_lines (poly_of va) p =? 1)%Z && (wn_lines (poly_of vb) p =? 1)%Z then 1 else 0)%Z.
+Proof. exact convex_inter_checked. Qed.
+Theorem C01_difference_sound_convex : forall va vb a' b' new p,
+  convex_ccw_b va = true -> convex_ccw_b vb = true ->
+  diff_hyps_b (poly_of va) (poly_of vb) p = true ->
+  recombine (SC (CS (poly_of va))) (SC (CS (invert (poly_of vb)))) false true = Ok (a', b', new) ->
+  Zsum (map (fun j => wn_lines j p) new)
+  = (if (wn_lines (poly_of va) p =? 1)%Z && (wn_lines (poly_of vb) p =? 0)%Z then 1 else 0)%Z.
+Proof. exact convex_diff_checked. Qed.
+Print Assumptions C01_union_sound_convex.
+Print Assumptions C01_intersection_sound_convex.
+Print Assumptions C01_difference_sound_convex.
+(* non-vacuity: two overlapping triangles meet every (boolean) hypothesis at four points of four cells *)
+Example C01_convex_nonvacuous :
+  convex_ccw_b ex_ta = true /\ convex_ccw_b ex_tb = true /\
+  forall q, In q [t_A; t_AB; t_B; t_out] ->
+    sound_hyps_b (poly_of ex_ta) (poly_of ex_tb) true false q = true /\
+    sound_hyps_b (poly_of ex_ta) (poly_of ex_tb) false true q = true /\
+    diff_hyps_b (poly_of ex_ta) (poly_of ex_tb) q = true.
+Proof. split; [vm_compute; reflexivity|]. split; [vm_compute; reflexivity|]. exact ex_tri_hyps. Qed.
